@@ -263,6 +263,10 @@ class Ombott:
         try:
             path = path.encode('latin1').decode('utf8')
         except UnicodeError:
+            # bind the shared objects to this request, or the error response
+            # would be built from whatever the previous request left behind
+            request.__init__(environ)
+            response.__init__()
             return HTTPError(400, 'Invalid path string. Expected UTF-8')
         environ['PATH_INFO'] = path
         try:  # init thread
